@@ -1,4 +1,1141 @@
 package main
 
-// buildSamples returns the library values whose wire format is exercised (placeholder).
-func buildSamples(seed int64, tier string) []Sample { return nil }
+import (
+	"bytes"
+	"fmt"
+	"io"
+	"math/big"
+	"os"
+	"slices"
+
+	"github.com/bronlabs/bron-crypto/pkg/base/algebra"
+	"github.com/bronlabs/bron-crypto/pkg/base/curves/edwards25519"
+	"github.com/bronlabs/bron-crypto/pkg/base/curves/k256"
+	"github.com/bronlabs/bron-crypto/pkg/base/curves/p256"
+	"github.com/bronlabs/bron-crypto/pkg/base/curves/pairable/bls12381"
+	ds "github.com/bronlabs/bron-crypto/pkg/base/datastructures"
+	"github.com/bronlabs/bron-crypto/pkg/base/datastructures/hashmap"
+	"github.com/bronlabs/bron-crypto/pkg/base/datastructures/hashset"
+	"github.com/bronlabs/bron-crypto/pkg/base/mat"
+	"github.com/bronlabs/bron-crypto/pkg/base/nt/num"
+	"github.com/bronlabs/bron-crypto/pkg/base/polynomials"
+	"github.com/bronlabs/bron-crypto/pkg/base/serde"
+	"github.com/bronlabs/bron-crypto/pkg/commitments"
+	"github.com/bronlabs/bron-crypto/pkg/commitments/hashcom"
+	"github.com/bronlabs/bron-crypto/pkg/commitments/pedersencom"
+	"github.com/bronlabs/bron-crypto/pkg/mpc"
+	"github.com/bronlabs/bron-crypto/pkg/mpc/dkg/gennaro"
+	"github.com/bronlabs/bron-crypto/pkg/mpc/dkg/trusteddealer"
+	"github.com/bronlabs/bron-crypto/pkg/mpc/session"
+	"github.com/bronlabs/bron-crypto/pkg/mpc/sharing"
+	"github.com/bronlabs/bron-crypto/pkg/mpc/sharing/accessstructures"
+	"github.com/bronlabs/bron-crypto/pkg/mpc/sharing/accessstructures/boolexpr"
+	"github.com/bronlabs/bron-crypto/pkg/mpc/sharing/accessstructures/cnf"
+	"github.com/bronlabs/bron-crypto/pkg/mpc/sharing/accessstructures/hierarchical"
+	"github.com/bronlabs/bron-crypto/pkg/mpc/sharing/accessstructures/threshold"
+	"github.com/bronlabs/bron-crypto/pkg/mpc/sharing/accessstructures/unanimity"
+	"github.com/bronlabs/bron-crypto/pkg/mpc/sharing/scheme/kw"
+	"github.com/bronlabs/bron-crypto/pkg/mpc/sharing/scheme/kw/msp"
+	"github.com/bronlabs/bron-crypto/pkg/mpc/sharing/vss/feldman"
+	"github.com/bronlabs/bron-crypto/pkg/mpc/sharing/vss/pedersen"
+	"github.com/bronlabs/bron-crypto/pkg/proofs/dlog/schnorr"
+	"github.com/bronlabs/bron-crypto/pkg/proofs/sigma/compiler/fiatshamir"
+	"github.com/bronlabs/bron-crypto/pkg/proofs/sigma/compiler/fiatshamir/zkmodule"
+	"github.com/bronlabs/bron-crypto/pkg/signatures/ecdsa"
+	"verif/harness/internal/vh"
+)
+
+// ---- plumbing -------------------------------------------------------------------
+
+type ID = sharing.ID
+
+type builder struct {
+	seed int64
+	reps int // number of random variants per "random" family (1 quick, 5 thorough)
+	out  []Sample
+}
+
+func (b *builder) rng(stream string, idx int) *vh.Rng { return vh.NewRng(b.seed, "C12", stream, idx) }
+
+func sampleError(typ string, err any) { fmt.Fprintf(os.Stderr, "SAMPLE-ERROR %s: %v\n", typ, err) }
+
+// put wraps v with mk and appends it; construction errors and panics are reported, never hidden.
+func put[T any](b *builder, typ, desc string, v T, eq func(x, y T) bool, facts func(v T) string) {
+	if isNilValue(any(v)) {
+		sampleError(typ, desc+": constructed value is nil")
+		return
+	}
+	var s Sample
+	var err error
+	if p := vh.Safely(func() { s, err = mk(typ, desc, v, eq, facts) }); p != "" {
+		sampleError(typ, desc+": panic in marshal: "+p)
+		return
+	}
+	if err != nil {
+		sampleError(typ, fmt.Sprintf("%s: %v", desc, err))
+		return
+	}
+	b.out = append(b.out, s)
+}
+
+// putE is put for a (value, error) constructor result.
+func putE[T any](b *builder, typ, desc string, v T, err error, eq func(x, y T) bool) {
+	if err != nil {
+		sampleError(typ, fmt.Sprintf("%s: %v", desc, err))
+		return
+	}
+	put(b, typ, desc, v, eq, nil)
+}
+
+// group runs one family of constructions; a panic inside is reported and the rest goes on.
+func (b *builder) group(name string, f func()) {
+	if p := vh.Safely(f); p != "" {
+		sampleError(name, "panic while building: "+p)
+	}
+}
+
+func idset(ids ...uint64) ds.Set[ID] {
+	xs := make([]ID, len(ids))
+	for i, x := range ids {
+		xs[i] = ID(x)
+	}
+	return hashset.NewComparable(xs...).Freeze()
+}
+
+func toIDs(ids ...uint64) []ID {
+	xs := make([]ID, len(ids))
+	for i, x := range ids {
+		xs[i] = ID(x)
+	}
+	return xs
+}
+
+func sortedIDs(s ds.Set[ID]) []ID {
+	xs := s.List()
+	slices.Sort(xs)
+	return xs
+}
+
+// cborEq is the equality used for types that have no Equal method: same canonical encoding.
+func cborEq[T any](x, y T) bool {
+	bx, ex := serde.MarshalCBOR(x)
+	by, ey := serde.MarshalCBOR(y)
+	return ex == nil && ey == nil && bytes.Equal(bx, by)
+}
+
+// randIDs draws n distinct non-zero IDs whose magnitudes exercise all CBOR integer heads.
+func randIDs(r *vh.Rng, n int) []uint64 {
+	seen := map[uint64]bool{}
+	var out []uint64
+	for len(out) < n {
+		var x uint64
+		switch r.Intn(6) {
+		case 0:
+			x = 1 + uint64(r.Intn(23))
+		case 1:
+			x = 24 + uint64(r.Intn(232))
+		case 2:
+			x = 256 + uint64(r.Intn(65280))
+		case 3:
+			x = 65536 + r.Uint64()%(1<<32-65536)
+		case 4:
+			x = 1<<32 + r.Uint64()%(1<<40)
+		default:
+			x = r.Uint64() | 1<<63
+		}
+		if x != 0 && !seen[x] {
+			seen[x] = true
+			out = append(out, x)
+		}
+	}
+	return out
+}
+
+// ---- 1. access structures ---------------------------------------------------------
+
+func eqThreshold(x, y *threshold.Threshold) bool { return x.Equal(y) }
+func eqUnanimity(x, y *unanimity.Unanimity) bool { return x.Equal(y) }
+
+// CNF has no Equal method: same shareholders and the same family of maximal unqualified sets.
+func eqCNF(x, y *cnf.CNF) bool {
+	if !x.Shareholders().Equal(y.Shareholders()) {
+		return false
+	}
+	xs, ys := slices.Collect(x.MaximalUnqualifiedSetsIter()), slices.Collect(y.MaximalUnqualifiedSetsIter())
+	if len(xs) != len(ys) {
+		return false
+	}
+	for _, s := range xs {
+		if !slices.ContainsFunc(ys, func(t ds.Set[ID]) bool { return s.Equal(t) }) {
+			return false
+		}
+	}
+	return true
+}
+
+// Hierarchical has no Equal method: same number of levels, thresholds and per-level party sets.
+func eqHier(x, y *hierarchical.HierarchicalConjunctiveThreshold) bool {
+	lx, ly := x.Levels(), y.Levels()
+	if len(lx) != len(ly) {
+		return false
+	}
+	for i := range lx {
+		if lx[i].Threshold() != ly[i].Threshold() || !lx[i].Shareholders().Equal(ly[i].Shareholders()) {
+			return false
+		}
+	}
+	return true
+}
+
+// The gate tree has no accessors: same shareholders and same canonical encoding.
+func eqBoolExpr(x, y *boolexpr.ThresholdGateAccessStructure) bool {
+	return x.Shareholders().Equal(y.Shareholders()) && cborEq(x, y)
+}
+
+func mkThreshold(t uint, ids ...uint64) (*threshold.Threshold, error) {
+	return threshold.NewThresholdAccessStructure(t, idset(ids...))
+}
+
+func mkCNF(sets ...[]uint64) (*cnf.CNF, error) {
+	ss := make([]ds.Set[ID], len(sets))
+	for i, s := range sets {
+		ss[i] = idset(s...)
+	}
+	return cnf.NewCNFAccessStructure(ss...)
+}
+
+type hlevel struct {
+	t   int
+	ids []uint64
+}
+
+type levelView struct {
+	Threshold int      `cbor:"threshold"`
+	Parties   []uint64 `cbor:"parties"`
+}
+
+// mkHier builds a hierarchical access structure. The library stores each level's parties in Go
+// map iteration order, so the construction is repeated until every level comes out in ascending
+// order: the sample bytes are then the same on every run.
+func mkHier(levels ...hlevel) (*hierarchical.HierarchicalConjunctiveThreshold, error) {
+	var h *hierarchical.HierarchicalConjunctiveThreshold
+	var err error
+	for try := 0; try < 4096; try++ {
+		ls := make([]*hierarchical.ThresholdLevel, len(levels))
+		for i, l := range levels {
+			ids := slices.Clone(l.ids)
+			slices.Sort(ids)
+			ls[i] = hierarchical.WithLevel(l.t, toIDs(ids...)...)
+		}
+		h, err = hierarchical.NewHierarchicalConjunctiveThresholdAccessStructure(ls...)
+		if err != nil {
+			return nil, err
+		}
+		sorted := true
+		for _, l := range h.Levels() {
+			lb, e := serde.MarshalCBOR(l)
+			if e != nil {
+				return h, nil
+			}
+			v, e := serde.UnmarshalCBOR[levelView](lb)
+			if e != nil {
+				return h, nil
+			}
+			sorted = sorted && slices.IsSorted(v.Parties)
+		}
+		if sorted {
+			return h, nil
+		}
+	}
+	return h, nil
+}
+
+func bid(x uint64) *boolexpr.Node { return boolexpr.ID(ID(x)) }
+
+func mkBool(root *boolexpr.Node) (*boolexpr.ThresholdGateAccessStructure, error) {
+	return boolexpr.NewThresholdGateAccessStructure(root)
+}
+
+const (
+	two32 = uint64(1) << 32
+	two63 = uint64(1) << 63
+	max64 = ^uint64(0)
+)
+
+func (b *builder) accessStructures() {
+	b.group("threshold", func() {
+		add := func(desc string, t uint, ids ...uint64) {
+			v, err := mkThreshold(t, ids...)
+			putE(b, "threshold", desc, v, err, eqThreshold)
+		}
+		add("2-of-{1,2,3}", 2, 1, 2, 3)
+		add("2-of-{1,2} boundary", 2, 1, 2)
+		add("3-of-{1,2,3} t=n", 3, 1, 2, 3)
+		add("5-of-{1..5} t=n", 5, 1, 2, 3, 4, 5)
+		add("2-of-{19,3,7} sparse unsorted", 2, 19, 3, 7)
+		add("2-of-{23,24,25} head boundary", 2, 23, 24, 25)
+		add("3-of-{255,256,65535,65536}", 3, 255, 256, 65535, 65536)
+		add("2-of-{2^32-1,2^32,2^63,2^64-1}", 2, two32-1, two32, two63, max64)
+		add("24-of-{1..30} big t", 24, seq(1, 30)...)
+		for i := 0; i < 2*b.reps; i++ {
+			r := b.rng("threshold", i)
+			n := 3 + r.Intn(3)
+			t := 2 + r.Intn(n-1)
+			add(fmt.Sprintf("random#%d %d-of-%d", i, t, n), uint(t), randIDs(r, n)...)
+		}
+	})
+	b.group("unanimity", func() {
+		add := func(desc string, ids ...uint64) {
+			v, err := unanimity.NewUnanimityAccessStructure(idset(ids...))
+			putE(b, "unanimity", desc, v, err, eqUnanimity)
+		}
+		add("{1,2}", 1, 2)
+		add("{1,2,3}", 1, 2, 3)
+		add("{19,3,7} sparse unsorted", 19, 3, 7)
+		add("{23,24,255,256}", 23, 24, 255, 256)
+		add("{65535,65536,2^32-1,2^32}", 65535, 65536, two32-1, two32)
+		add("{2^63,2^64-1,1}", two63, max64, 1)
+		for i := 0; i < 2*b.reps; i++ {
+			r := b.rng("unanimity", i)
+			n := 2 + r.Intn(4)
+			add(fmt.Sprintf("random#%d n=%d", i, n), randIDs(r, n)...)
+		}
+	})
+	b.group("cnf", func() {
+		add := func(desc string, sets ...[]uint64) {
+			v, err := mkCNF(sets...)
+			putE(b, "cnf", desc, v, err, eqCNF)
+		}
+		add("{1,2},{3}", []uint64{1, 2}, []uint64{3})
+		add("{1},{2},{3} (2-of-3)", []uint64{1}, []uint64{2}, []uint64{3})
+		add("{1,2},{2,3},{1,3} (3-of-3)", []uint64{1, 2}, []uint64{2, 3}, []uint64{1, 3})
+		add("{1,2,3},{3,4},{1,4}", []uint64{1, 2, 3}, []uint64{3, 4}, []uint64{1, 4})
+		add("{7,19},{3}, sparse unsorted", []uint64{19, 7}, []uint64{3})
+		add("{23,24},{24,256},{23,256}", []uint64{23, 24}, []uint64{24, 256}, []uint64{23, 256})
+		add("{65536,2^32},{255}", []uint64{65536, two32}, []uint64{255})
+		add("{2^63},{2^64-1,1},{2^32}", []uint64{two63}, []uint64{max64, 1}, []uint64{two32})
+		add("with non-maximal and duplicate sets", []uint64{1, 2}, []uint64{1}, []uint64{2, 1}, []uint64{3, 4})
+		th, err := mkThreshold(3, 1, 2, 3, 4)
+		if err == nil {
+			v, err := cnf.ConvertToCNF(th)
+			putE(b, "cnf", "ConvertToCNF(3-of-{1,2,3,4})", v, err, eqCNF)
+		}
+		for i := 0; i < 2*b.reps; i++ {
+			r := b.rng("cnf", i)
+			n := 3 + r.Intn(3)
+			ids := randIDs(r, n)
+			k := 2 + r.Intn(2)
+			sets := make([][]uint64, k)
+			for j := range sets {
+				for _, id := range ids {
+					if r.Chance(1, 2) {
+						sets[j] = append(sets[j], id)
+					}
+				}
+				if len(sets[j]) == 0 {
+					sets[j] = []uint64{ids[j%n]}
+				}
+			}
+			// make sure every shareholder is used so that the universe has >= 2 members
+			sets[0] = append(sets[0], ids[0])
+			sets[1] = append(sets[1], ids[1])
+			add(fmt.Sprintf("random#%d n=%d sets=%d", i, n, k), sets...)
+		}
+	})
+	b.group("hierarchical", func() {
+		add := func(desc string, levels ...hlevel) {
+			v, err := mkHier(levels...)
+			putE(b, "hierarchical", desc, v, err, eqHier)
+		}
+		add("1 level 2-of-{1,2,3}", hlevel{2, []uint64{1, 2, 3}})
+		add("1 level 1-of-{5}", hlevel{1, []uint64{5}})
+		add("2 levels (1;{1}) (3;{2,3,4})", hlevel{1, []uint64{1}}, hlevel{3, []uint64{2, 3, 4}})
+		add("2 levels (2;{1,2}) (3;{3})", hlevel{2, []uint64{1, 2}}, hlevel{3, []uint64{3}})
+		add("3 levels (1;{10}) (2;{20,30}) (4;{40,50,60})", hlevel{1, []uint64{10}}, hlevel{2, []uint64{20, 30}}, hlevel{4, []uint64{40, 50, 60}})
+		add("3 levels single parties 23,24,256", hlevel{1, []uint64{23}}, hlevel{2, []uint64{24}}, hlevel{3, []uint64{256}})
+		add("2 levels (1;{255,65536}) (2;{2^32,2^63})", hlevel{1, []uint64{255, 65536}}, hlevel{2, []uint64{two32, two63}})
+		add("2 levels descending ids (1;{2^64-1}) (2;{7,3})", hlevel{1, []uint64{max64}}, hlevel{2, []uint64{7, 3}})
+		for i := 0; i < 2*b.reps; i++ {
+			r := b.rng("hierarchical", i)
+			nl := 1 + r.Intn(3)
+			ids := randIDs(r, 2*nl)
+			slices.Sort(ids)
+			var ls []hlevel
+			t := 0
+			for l := 0; l < nl; l++ {
+				t += 1 + r.Intn(2)
+				ls = append(ls, hlevel{t, ids[2*l : 2*l+2]})
+			}
+			add(fmt.Sprintf("random#%d levels=%d", i, nl), ls...)
+		}
+	})
+	b.group("boolexpr", func() {
+		add := func(desc string, root *boolexpr.Node) {
+			v, err := mkBool(root)
+			putE(b, "boolexpr", desc, v, err, eqBoolExpr)
+		}
+		add("depth1 Threshold(2;1,2,3)", boolexpr.Threshold(2, bid(1), bid(2), bid(3)))
+		add("depth1 And(1,2)", boolexpr.And(bid(1), bid(2)))
+		add("depth1 Or(5,300)", boolexpr.Or(bid(5), bid(300)))
+		add("depth0 single leaf ID(7)", bid(7))
+		add("depth2 And(Or(1,2),Threshold(2;3,4,5))", boolexpr.And(boolexpr.Or(bid(1), bid(2)), boolexpr.Threshold(2, bid(3), bid(4), bid(5))))
+		add("depth2 Or(And(23,24),And(255,256))", boolexpr.Or(boolexpr.And(bid(23), bid(24)), boolexpr.And(bid(255), bid(256))))
+		add("depth3 mixed big ids", boolexpr.Or(
+			boolexpr.And(bid(1), boolexpr.Or(bid(2), bid(3))),
+			boolexpr.Threshold(2, bid(4), bid(two32), boolexpr.And(bid(24), bid(65536))),
+		))
+		add("depth3 repeated id in different gates", boolexpr.Threshold(2,
+			boolexpr.And(bid(1), bid(two63)),
+			boolexpr.Or(bid(1), boolexpr.And(bid(2), bid(max64))),
+			bid(9),
+		))
+		for i := 0; i < 2*b.reps; i++ {
+			r := b.rng("boolexpr", i)
+			ids := randIDs(r, 12)
+			next := 0
+			var gen func(depth int) *boolexpr.Node
+			gen = func(depth int) *boolexpr.Node {
+				if depth == 0 || (depth < 3 && r.Chance(1, 3)) || next > 8 {
+					next++
+					return bid(ids[(next-1)%len(ids)])
+				}
+				n := 2 + r.Intn(2)
+				ch := make([]*boolexpr.Node, n)
+				for j := range ch {
+					ch[j] = gen(depth - 1)
+				}
+				return boolexpr.Threshold(1+r.Intn(n), ch...)
+			}
+			d := 1 + r.Intn(3)
+			add(fmt.Sprintf("random#%d depth<=%d", i, d), gen(d))
+		}
+	})
+}
+
+func seq(lo, hi uint64) []uint64 {
+	var xs []uint64
+	for x := lo; x <= hi; x++ {
+		xs = append(xs, x)
+	}
+	return xs
+}
+
+// namedAC is an access structure used as input for the sharing-based families.
+type namedAC struct {
+	name string
+	ac   accessstructures.Monotone
+}
+
+// sharingACs is the list of access structures the MSP / share / shard families are induced from.
+func sharingACs() []namedAC {
+	var out []namedAC
+	add := func(name string, ac accessstructures.Monotone, err error) {
+		if err != nil {
+			sampleError("access-structure-input", name+": "+err.Error())
+			return
+		}
+		out = append(out, namedAC{name, ac})
+	}
+	t1, e := mkThreshold(2, 1, 2, 3)
+	add("threshold 2-of-{1,2,3}", t1, e)
+	t2, e := mkThreshold(3, 24, 256, 65536, two32)
+	add("threshold 3-of-{24,256,65536,2^32}", t2, e)
+	c1, e := mkCNF([]uint64{1, 2}, []uint64{2, 3}, []uint64{1, 3, 4})
+	add("cnf {1,2},{2,3},{1,3,4}", c1, e)
+	c2, e := mkCNF([]uint64{300, 7}, []uint64{two32})
+	add("cnf {7,300},{2^32}", c2, e)
+	h1, e := mkHier(hlevel{1, []uint64{1, 2}}, hlevel{3, []uint64{3, 4, 5}})
+	add("hierarchical (1;{1,2}) (3;{3,4,5})", h1, e)
+	b1, e := mkBool(boolexpr.And(boolexpr.Or(bid(1), bid(2)), boolexpr.Threshold(2, bid(3), bid(4), bid(300))))
+	add("boolexpr And(Or(1,2),Threshold(2;3,4,300))", b1, e)
+	u1, e := unanimity.NewUnanimityAccessStructure(idset(1, 2, 3))
+	add("unanimity {1,2,3}", u1, e)
+	return out
+}
+
+// ---- 2..6: generic in the group ---------------------------------------------------------
+
+func eqMSP[S algebra.PrimeFieldElement[S]](x, y *msp.MSP[S]) bool   { return x.Equal(y) }
+func eqKW[S algebra.PrimeFieldElement[S]](x, y *kw.Share[S]) bool   { return x.Equal(y) }
+func eqPedShare[S algebra.PrimeFieldElement[S]](x, y *pedersen.Share[S]) bool { return x.Equal(y) }
+
+func mspSamples[S algebra.PrimeFieldElement[S]](b *builder, sfx string, f algebra.PrimeField[S]) {
+	typ := "msp-" + sfx
+	b.group(typ, func() {
+		for _, in := range sharingACs() {
+			m, err := accessstructures.InducedMSP(f, in.ac)
+			putE(b, typ, "induced by "+in.name, m, err, eqMSP[S])
+		}
+	})
+}
+
+func kwSamples[S algebra.PrimeFieldElement[S]](b *builder, sfx string, f algebra.PrimeField[S]) {
+	typ := "kwshare-" + sfx
+	b.group(typ, func() {
+		acs := sharingACs()
+		for k, in := range acs {
+			for rep := 0; rep < b.reps; rep++ {
+				sch, err := kw.NewScheme(f, in.ac)
+				if err != nil {
+					sampleError(typ, in.name+": "+err.Error())
+					continue
+				}
+				out, _, err := sch.DealRandom(b.rng(typ, k*100+rep))
+				if err != nil {
+					sampleError(typ, in.name+": "+err.Error())
+					continue
+				}
+				ids := sortedIDs(in.ac.Shareholders())
+				if k >= 2 && len(ids) > 2 { // keep the list short: two holders for the later structures
+					ids = ids[:2]
+				}
+				for _, id := range ids {
+					sh, _ := out.Shares().Get(id)
+					put(b, typ, fmt.Sprintf("deal#%d %s holder %d", rep, in.name, id), sh, eqKW[S], nil)
+				}
+			}
+		}
+		r := b.rng(typ+"/manual", 0)
+		x, _ := f.Random(r)
+		v, err := kw.NewShare(ID(max64), f.Zero(), f.One(), f.One().Neg(), x)
+		putE(b, typ, "NewShare(2^64-1; 0,1,q-1,random)", v, err, eqKW[S])
+		v, err = kw.NewShare(ID(1), f.Zero())
+		putE(b, typ, "NewShare(1; 0)", v, err, eqKW[S])
+	})
+}
+
+func feldmanSamples[G algebra.PrimeGroupElement[G, S], S algebra.PrimeFieldElement[S]](b *builder, sfx string, group algebra.PrimeGroup[G, S], withShares bool) {
+	vvTyp := "feldmanvv-" + sfx
+	b.group(vvTyp, func() {
+		for k, in := range sharingACs() {
+			for rep := 0; rep < b.reps; rep++ {
+				sch, err := feldman.NewScheme(group, in.ac)
+				if err != nil {
+					sampleError(vvTyp, in.name+": "+err.Error())
+					continue
+				}
+				out, _, err := sch.DealRandom(b.rng(vvTyp, k*100+rep))
+				if err != nil {
+					sampleError(vvTyp, in.name+": "+err.Error())
+					continue
+				}
+				put(b, vvTyp, fmt.Sprintf("deal#%d %s", rep, in.name), out.VerificationMaterial(),
+					func(x, y *feldman.VerificationVector[G, S]) bool { return x.Equal(y) }, nil)
+				if !withShares || k > 2 {
+					continue
+				}
+				for _, id := range sortedIDs(in.ac.Shareholders()) {
+					sh, _ := out.Shares().Get(id)
+					put(b, "feldmanshare-"+sfx, fmt.Sprintf("deal#%d %s holder %d", rep, in.name, id), sh, eqKW[S], nil)
+					ls, err := feldman.LiftShare(sh, group.Generator())
+					putE(b, "feldmanlifted-"+sfx, fmt.Sprintf("deal#%d %s holder %d lifted", rep, in.name, id), ls, err,
+						func(x, y *feldman.LiftedShare[G, S]) bool { return x.Equal(y) })
+				}
+			}
+		}
+		if withShares {
+			ls, err := feldman.NewLiftedShare[G, S](ID(two32), group.Generator(), group.OpIdentity())
+			putE(b, "feldmanlifted-"+sfx, "NewLiftedShare(2^32; G, identity)", ls, err,
+				func(x, y *feldman.LiftedShare[G, S]) bool { return x.Equal(y) })
+		}
+	})
+}
+
+func pedersenSamples[G algebra.PrimeGroupElement[G, S], S algebra.PrimeFieldElement[S]](b *builder, sfx string, group algebra.PrimeGroup[G, S]) {
+	typ := "pedersenvv-" + sfx
+	b.group(typ, func() {
+		key, err := pedersencom.SampleCommitmentKey(group, b.rng(typ+"/key", 0))
+		if err != nil {
+			sampleError(typ, "key: "+err.Error())
+			return
+		}
+		for k, in := range sharingACs() {
+			if k > 3 {
+				break
+			}
+			for rep := 0; rep < b.reps; rep++ {
+				sch, err := pedersen.NewScheme(key, in.ac)
+				if err != nil {
+					sampleError(typ, in.name+": "+err.Error())
+					continue
+				}
+				out, _, err := sch.DealRandom(b.rng(typ, k*100+rep))
+				if err != nil {
+					sampleError(typ, in.name+": "+err.Error())
+					continue
+				}
+				put(b, typ, fmt.Sprintf("deal#%d %s", rep, in.name), out.VerificationMaterial(),
+					func(x, y *pedersen.VerificationVector[G, S]) bool { return x.Equal(y) }, nil)
+				ids := sortedIDs(in.ac.Shareholders())
+				if len(ids) > 2 {
+					ids = ids[:2]
+				}
+				for _, id := range ids {
+					sh, _ := out.Shares().Get(id)
+					put(b, "pedersenshare-"+sfx, fmt.Sprintf("deal#%d %s holder %d", rep, in.name, id), sh, eqPedShare[S], nil)
+					ls, err := pedersen.LiftShare(sh, key)
+					putE(b, "pedersenlifted-"+sfx, fmt.Sprintf("deal#%d %s holder %d lifted", rep, in.name, id), ls, err,
+						func(x, y *pedersen.LiftedShare[G, S]) bool { return x.Equal(y) })
+				}
+			}
+		}
+	})
+}
+
+// shardFacts recomputes, through the public API only, the check mpc.NewBaseShard makes: the lift
+// of the private share must be the public key share the shard derives for the share's holder.
+func shardFacts[G algebra.PrimeGroupElement[G, S], S algebra.PrimeFieldElement[S]](group algebra.PrimeGroup[G, S]) func(*mpc.BaseShard[G, S]) string {
+	return func(sh *mpc.BaseShard[G, S]) string {
+		share := sh.Share()
+		if share == nil || sh.PublicKeyShares() == nil {
+			return "sharematch=0"
+		}
+		lifted, err := feldman.LiftShare(share, group.Generator())
+		if err != nil {
+			return "sharematch=0"
+		}
+		pks, ok := sh.PublicKeyShares().Get(share.ID())
+		if !ok || pks == nil || !lifted.Equal(pks) {
+			return "sharematch=0"
+		}
+		return "sharematch=1"
+	}
+}
+
+func shardSamples[G algebra.PrimeGroupElement[G, S], S algebra.PrimeFieldElement[S]](b *builder, sfx string, group algebra.PrimeGroup[G, S], withPublic bool) {
+	typ := "baseshard-" + sfx
+	b.group(typ, func() {
+		acs := sharingACs()
+		for k, in := range acs {
+			if k > 3 { // threshold x2, cnf x2
+				break
+			}
+			for rep := 0; rep < b.reps; rep++ {
+				shards, err := trusteddealer.Deal(group, in.ac, io.Reader(b.rng(typ, k*100+rep)))
+				if err != nil {
+					sampleError(typ, in.name+": "+err.Error())
+					continue
+				}
+				var first *mpc.BaseShard[G, S]
+				for _, id := range sortedIDs(in.ac.Shareholders()) {
+					sh, ok := shards.Get(id)
+					if !ok {
+						sampleError(typ, fmt.Sprintf("%s: no shard for %d", in.name, id))
+						continue
+					}
+					if first == nil {
+						first = sh
+					}
+					put(b, typ, fmt.Sprintf("deal#%d %s holder %d", rep, in.name, id), sh,
+						func(x, y *mpc.BaseShard[G, S]) bool { return x.Equal(y) }, shardFacts(group))
+				}
+				if withPublic && first != nil {
+					pm, err := mpc.NewBasePublicMaterial(first.MSP(), first.VerificationVector())
+					putE(b, "basepublic-"+sfx, fmt.Sprintf("deal#%d %s", rep, in.name), pm, err,
+						func(x, y *mpc.BasePublicMaterial[G, S]) bool { return x.Equal(y) })
+				}
+			}
+		}
+	})
+}
+
+// ---- 7. ECDSA signatures ------------------------------------------------------------------
+
+func (b *builder) ecdsaSigs() {
+	typ := "ecdsasig-k256"
+	b.group(typ, func() {
+		f := k256.NewScalarField()
+		eq := func(x, y *ecdsa.Signature[*k256.Scalar]) bool { return x.Equal(y) }
+		nz := func(r *vh.Rng) *k256.Scalar {
+			for {
+				x, err := f.Random(r)
+				if err == nil && !x.IsZero() {
+					return x
+				}
+			}
+		}
+		for i := 0; i < 4*b.reps; i++ {
+			r := b.rng(typ, i)
+			v := i % 4
+			sig, err := ecdsa.NewSignature(nz(r), nz(r), &v)
+			putE(b, typ, fmt.Sprintf("random#%d v=%d", i, v), sig, err, eq)
+		}
+		r := b.rng(typ+"/nov", 0)
+		sig, err := ecdsa.NewSignature(nz(r), nz(r), nil)
+		putE(b, typ, "random v=nil", sig, err, eq)
+		v0 := 0
+		sig, err = ecdsa.NewSignature(f.One(), f.One().Neg(), &v0)
+		putE(b, typ, "r=1 s=q-1 v=0", sig, err, eq)
+		v3 := 3
+		sig, err = ecdsa.NewSignature(f.One().Neg(), f.One(), &v3)
+		putE(b, typ, "r=q-1 s=1 v=3", sig, err, eq)
+	})
+}
+
+// ---- 8. matrices -------------------------------------------------------------------------------
+
+func (b *builder) matrices() {
+	f := k256.NewScalarField()
+	curve := k256.NewCurve()
+	eqM := func(x, y *mat.Matrix[*k256.Scalar]) bool { return x.Equal(y) }
+	eqS := func(x, y *mat.SquareMatrix[*k256.Scalar]) bool { return x.Equal(y) }
+	eqV := func(x, y *mat.ModuleValuedMatrix[*k256.Point, *k256.Scalar]) bool { return x.Equal(y) }
+	b.group("matrix-k256", func() {
+		shapes := [][2]uint{{1, 1}, {2, 3}, {3, 2}, {1, 4}, {4, 1}}
+		for k, sh := range shapes {
+			mod, err := mat.NewMatrixModule(sh[0], sh[1], f)
+			if err != nil {
+				sampleError("matrix-k256", err)
+				continue
+			}
+			for rep := 0; rep < b.reps; rep++ {
+				m, err := mod.Random(b.rng("matrix-k256", k*100+rep))
+				putE(b, "matrix-k256", fmt.Sprintf("random#%d %dx%d", rep, sh[0], sh[1]), m, err, eqM)
+				if err == nil && k < 3 {
+					lm, err := mat.Lift(m, curve.Generator())
+					putE(b, "mvmatrix-k256", fmt.Sprintf("Lift(random#%d %dx%d, G)", rep, sh[0], sh[1]), lm, err, eqV)
+				}
+			}
+		}
+		mod, err := mat.NewMatrixModule(2, 2, f)
+		if err == nil {
+			m, err := mod.New([][]*k256.Scalar{{f.Zero(), f.One()}, {f.One().Neg(), f.FromUint64(256)}})
+			putE(b, "matrix-k256", "2x2 [0 1; q-1 256]", m, err, eqM)
+			if err == nil {
+				lm, err := mat.Lift(m, curve.Generator())
+				putE(b, "mvmatrix-k256", "Lift(2x2 [0 1; q-1 256], G) (has identity entry)", lm, err, eqV)
+			}
+		}
+	})
+	b.group("sqmatrix-k256", func() {
+		for n := uint(1); n <= 3; n++ {
+			alg, err := mat.NewMatrixAlgebra(n, f)
+			if err != nil {
+				sampleError("sqmatrix-k256", err)
+				continue
+			}
+			put(b, "sqmatrix-k256", fmt.Sprintf("identity %dx%d", n, n), alg.Identity(), eqS, nil)
+			for rep := 0; rep < b.reps; rep++ {
+				m, err := alg.Random(b.rng("sqmatrix-k256", int(n)*100+rep))
+				putE(b, "sqmatrix-k256", fmt.Sprintf("random#%d %dx%d", rep, n, n), m, err, eqS)
+			}
+		}
+	})
+}
+
+// ---- 9. numbers -----------------------------------------------------------------------------------
+
+func (b *builder) numbers() {
+	two64 := new(big.Int).Lsh(big.NewInt(1), 64)
+	b.group("nat", func() {
+		eq := func(x, y *num.Nat) bool { return x.Equal(y) }
+		for _, x := range []uint64{0, 1, 23, 24, 255, 256, 65535, 65536, max64} {
+			put(b, "nat", fmt.Sprintf("FromUint64(%d)", x), num.N().FromUint64(x), eq, nil)
+		}
+		v, err := num.N().FromBig(two64)
+		putE(b, "nat", "2^64", v, err, eq)
+		for i := 0; i < 2*b.reps; i++ {
+			x := b.rng("nat", i).BigBits(300)
+			x.SetBit(x, 299, 1)
+			v, err := num.N().FromBig(x)
+			putE(b, "nat", fmt.Sprintf("random#%d 300-bit", i), v, err, eq)
+		}
+	})
+	b.group("int", func() {
+		eq := func(x, y *num.Int) bool { return x.Equal(y) }
+		for _, x := range []int64{0, -1, 1, -24, -25, 255, -256, 256, -1 << 63, 1<<63 - 1} {
+			put(b, "int", fmt.Sprintf("FromInt64(%d)", x), num.Z().FromInt64(x), eq, nil)
+		}
+		v, err := num.Z().FromBig(two64)
+		putE(b, "int", "2^64", v, err, eq)
+		v, err = num.Z().FromBig(new(big.Int).Neg(two64))
+		putE(b, "int", "-2^64", v, err, eq)
+		for i := 0; i < 2*b.reps; i++ {
+			x := b.rng("int", i).BigBits(300)
+			x.SetBit(x, 299, 1)
+			v, err := num.Z().FromBig(x)
+			putE(b, "int", fmt.Sprintf("random#%d +300-bit", i), v, err, eq)
+			y := b.rng("int/neg", i).BigBits(257)
+			y.SetBit(y, 256, 1)
+			v, err = num.Z().FromBig(y.Neg(y))
+			putE(b, "int", fmt.Sprintf("random#%d -257-bit", i), v, err, eq)
+		}
+	})
+	b.group("natplus", func() {
+		eq := func(x, y *num.NatPlus) bool { return x.Equal(y) }
+		for _, x := range []uint64{1, 2, 24, 255, 256, 65536, max64} {
+			v, err := num.NPlus().FromUint64(x)
+			putE(b, "natplus", fmt.Sprintf("FromUint64(%d)", x), v, err, eq)
+		}
+		v, err := num.NPlus().FromBig(two64)
+		putE(b, "natplus", "2^64", v, err, eq)
+		for i := 0; i < 2*b.reps; i++ {
+			x := b.rng("natplus", i).BigBits(300)
+			x.SetBit(x, 299, 1)
+			v, err := num.NPlus().FromBig(x)
+			putE(b, "natplus", fmt.Sprintf("random#%d 300-bit", i), v, err, eq)
+		}
+	})
+}
+
+// ---- 10. curve elements ---------------------------------------------------------------------------
+
+func scalarSamples[S interface {
+	Equal(S) bool
+	Neg() S
+}](b *builder, typ string, zero, one S, fromU64 func(uint64) S, random func(io.Reader) (S, error)) {
+	b.group(typ, func() {
+		eq := func(x, y S) bool { return x.Equal(y) }
+		put(b, typ, "zero", zero, eq, nil)
+		put(b, typ, "one", one, eq, nil)
+		put(b, typ, "q-1", one.Neg(), eq, nil)
+		put(b, typ, "256", fromU64(256), eq, nil)
+		put(b, typ, "2^64-1", fromU64(max64), eq, nil)
+		for i := 0; i < 2*b.reps; i++ {
+			v, err := random(b.rng(typ, i))
+			putE(b, typ, fmt.Sprintf("random#%d", i), v, err, eq)
+		}
+	})
+}
+
+func pointSamples[P interface {
+	Equal(P) bool
+	Neg() P
+	Double() P
+}](b *builder, typ string, gen, identity P, random func(io.Reader) (P, error)) {
+	b.group(typ, func() {
+		eq := func(x, y P) bool { return x.Equal(y) }
+		put(b, typ, "generator", gen, eq, nil)
+		put(b, typ, "identity", identity, eq, nil)
+		put(b, typ, "-generator", gen.Neg(), eq, nil)
+		put(b, typ, "2*generator", gen.Double(), eq, nil)
+		for i := 0; i < 2*b.reps; i++ {
+			v, err := random(b.rng(typ, i))
+			putE(b, typ, fmt.Sprintf("random#%d", i), v, err, eq)
+		}
+	})
+}
+
+func (b *builder) curveElements() {
+	kf, kc := k256.NewScalarField(), k256.NewCurve()
+	scalarSamples(b, "scalar-k256", kf.Zero(), kf.One(), kf.FromUint64, kf.Random)
+	pointSamples(b, "point-k256", kc.Generator(), kc.OpIdentity(), kc.Random)
+	bf, bg := bls12381.NewScalarField(), bls12381.NewG1()
+	scalarSamples(b, "scalar-bls12381", bf.Zero(), bf.One(), bf.FromUint64, bf.Random)
+	pointSamples(b, "point-bls12381g1", bg.Generator(), bg.OpIdentity(), bg.Random)
+	pf, pc := p256.NewScalarField(), p256.NewCurve()
+	scalarSamples(b, "scalar-p256", pf.Zero(), pf.One(), pf.FromUint64, pf.Random)
+	pointSamples(b, "point-p256", pc.Generator(), pc.OpIdentity(), pc.Random)
+	ef, ec := edwards25519.NewScalarField(), edwards25519.NewPrimeSubGroup()
+	scalarSamples(b, "scalar-edwards25519", ef.Zero(), ef.One(), ef.FromUint64, ef.Random)
+	pointSamples(b, "point-edwards25519", ec.Generator(), ec.OpIdentity(), ec.Random)
+}
+
+// ---- 11. hash commitments ---------------------------------------------------------------------------
+
+func (b *builder) hashcoms() {
+	b.group("hashcom", func() {
+		for i := 0; i < 2*b.reps; i++ {
+			r := b.rng("hashcom", i)
+			key, err := hashcom.SampleCommitmentKey(r)
+			if err != nil {
+				sampleError("hashcom-key", err)
+				continue
+			}
+			msg := r.Bytes(1 + r.Intn(64))
+			com, wit, err := commitments.Commit(key, hashcom.Message(msg), io.Reader(r))
+			if err != nil {
+				sampleError("hashcom-commitment", err)
+				continue
+			}
+			put(b, "hashcom-commitment", fmt.Sprintf("commit#%d to %d random bytes", i, len(msg)), com,
+				func(x, y hashcom.Commitment) bool { return x.Equal(y) }, nil)
+			put(b, "hashcom-witness", fmt.Sprintf("commit#%d witness", i), wit,
+				func(x, y hashcom.Witness) bool { return x.Equal(y) }, nil)
+			put(b, "hashcom-key", fmt.Sprintf("commit#%d key", i), key,
+				func(x, y *hashcom.CommitmentKey) bool { return x.Equal(y) }, nil)
+		}
+		put(b, "hashcom-commitment", "all-zero digest", hashcom.Commitment{},
+			func(x, y hashcom.Commitment) bool { return x.Equal(y) }, nil)
+	})
+}
+
+// ---- 12. Schnorr proofs ---------------------------------------------------------------------------------
+
+// makeContexts builds one session context per quorum member from seeded common / pairwise seeds
+// (what pkg/mpc/session/testutils.MakeRandomContexts does, without testing.TB).
+func makeContexts(r io.Reader, ids []ID) (map[ID]*session.Context, error) {
+	quorum := hashset.NewComparable(ids...).Freeze()
+	common := make([]byte, 64)
+	if _, err := io.ReadFull(r, common); err != nil {
+		return nil, err
+	}
+	pair := map[ID]map[ID][]byte{}
+	for _, i := range ids {
+		pair[i] = map[ID][]byte{}
+	}
+	for a, i := range ids {
+		for _, j := range ids[a:] {
+			s := make([]byte, 64)
+			if _, err := io.ReadFull(r, s); err != nil {
+				return nil, err
+			}
+			pair[i][j], pair[j][i] = s, s
+		}
+	}
+	out := map[ID]*session.Context{}
+	for _, i := range ids {
+		c, err := session.NewContext(i, quorum, common, pair[i])
+		if err != nil {
+			return nil, err
+		}
+		out[i] = c
+	}
+	return out, nil
+}
+
+func (b *builder) schnorrProofs() {
+	type G = *k256.Point
+	type S = *k256.Scalar
+	type proofT = *fiatshamir.Proof[*schnorr.Commitment[G, S], *schnorr.Response[S]]
+	b.group("schnorr", func() {
+		curve := k256.NewCurve()
+		f := k256.NewScalarField()
+		for i := 0; i < 2*b.reps; i++ {
+			r := b.rng("schnorr", i)
+			proto, err := schnorr.NewProtocol(curve.Generator(), io.Reader(r))
+			if err != nil {
+				sampleError("schnorrproof-k256", err)
+				continue
+			}
+			w, err := f.Random(r)
+			if err != nil {
+				sampleError("schnorrproof-k256", err)
+				continue
+			}
+			witness := schnorr.NewWitness(w)
+			statement := schnorr.NewStatement[G, S](curve.Generator().ScalarOp(w))
+			ctxs, err := makeContexts(r, []ID{1, 2})
+			if err != nil {
+				sampleError("schnorrproof-k256", err)
+				continue
+			}
+			a, st, err := zkmodule.Commit(proto, statement, witness)
+			if err != nil {
+				sampleError("schnorrproof-k256", err)
+				continue
+			}
+			proof, err := zkmodule.Prove(ctxs[1], proto, statement, witness, a, st)
+			if err != nil {
+				sampleError("schnorrproof-k256", err)
+				continue
+			}
+			if verr := zkmodule.Verify(ctxs[2], proto, statement, proof); verr != nil {
+				sampleError("schnorrproof-k256", fmt.Sprintf("generated proof does not verify: %v", verr))
+			}
+			put(b, "schnorrproof-k256", fmt.Sprintf("fiat-shamir proof#%d", i), proofT(proof), cborEq[proofT], nil)
+			put(b, "schnorr-commitment-k256", fmt.Sprintf("proof#%d commitment", i), proof.Commitment(),
+				func(x, y *schnorr.Commitment[G, S]) bool { return x.Value().Equal(y.Value()) }, nil)
+			put(b, "schnorr-response-k256", fmt.Sprintf("proof#%d response", i), proof.Response(),
+				func(x, y *schnorr.Response[S]) bool { return x.Value().Equal(y.Value()) }, nil)
+			put(b, "schnorr-statement-k256", fmt.Sprintf("proof#%d statement", i), statement,
+				func(x, y *schnorr.Statement[G, S]) bool { return x.Value().Equal(y.Value()) }, nil)
+			put(b, "schnorr-witness-k256", fmt.Sprintf("proof#%d witness", i), witness,
+				func(x, y *schnorr.Witness[S]) bool { return x.Value().Equal(y.Value()) }, nil)
+		}
+	})
+}
+
+// ---- 13. protocol messages: Gennaro DKG, 3 parties, k256 ---------------------------------------------------
+
+func (b *builder) gennaroMessages() {
+	type G = *k256.Point
+	type S = *k256.Scalar
+	type P = *gennaro.Participant[G, S]
+	type r1b = *gennaro.Round1Broadcast[G, S]
+	type r1u = *gennaro.Round1Unicast[G, S]
+	type r2b = *gennaro.Round2Broadcast[G, S]
+	b.group("msg-gennaro", func() {
+		ids := []ID{1, 2, 3}
+		ac, err := mkThreshold(2, 1, 2, 3)
+		if err != nil {
+			sampleError("msg-gennaro", err)
+			return
+		}
+		ctxs, err := makeContexts(b.rng("gennaro/ctx", 0), ids)
+		if err != nil {
+			sampleError("msg-gennaro", err)
+			return
+		}
+		parts := map[ID]P{}
+		for _, id := range ids {
+			p, err := gennaro.NewParticipant(ctxs[id], k256.NewCurve(), ac, fiatshamir.Name, io.Reader(b.rng("gennaro/party", int(id))))
+			if err != nil {
+				sampleError("msg-gennaro", err)
+				return
+			}
+			parts[id] = p
+		}
+		// round 1
+		bo1 := map[ID]r1b{}
+		uo1 := map[ID]ds.Map[ID, r1u]{}
+		for _, id := range ids {
+			bc, uc, err := parts[id].Round1()
+			if err != nil {
+				sampleError("msg-gennaro-r1", err)
+				return
+			}
+			bo1[id], uo1[id] = bc, uc
+		}
+		for k, id := range ids {
+			if k < 2 {
+				put(b, "msg-gennaro-r1-bcast", fmt.Sprintf("from %d", id), bo1[id], cborEq[r1b], nil)
+			}
+		}
+		for _, to := range ids[1:] {
+			m, ok := uo1[1].Get(to)
+			if ok {
+				put(b, "msg-gennaro-r1-p2p", fmt.Sprintf("from 1 to %d", to), m, cborEq[r1u], nil)
+			}
+		}
+		// round 2
+		bo2 := map[ID]r2b{}
+		for _, id := range ids {
+			bin := hashmap.NewComparable[ID, r1b]()
+			uin := hashmap.NewComparable[ID, r1u]()
+			for _, from := range ids {
+				if from == id {
+					continue
+				}
+				bin.Put(from, bo1[from])
+				m, _ := uo1[from].Get(id)
+				uin.Put(from, m)
+			}
+			out, err := parts[id].Round2(bin.Freeze(), uin.Freeze())
+			if err != nil {
+				sampleError("msg-gennaro-r2", err)
+				return
+			}
+			bo2[id] = out
+		}
+		for k, id := range ids {
+			if k < 2 {
+				put(b, "msg-gennaro-r2-bcast", fmt.Sprintf("from %d", id), bo2[id], cborEq[r2b], nil)
+			}
+		}
+		// round 3: the resulting shards are one more source of baseshard-k256 values
+		for _, id := range ids {
+			bin := hashmap.NewComparable[ID, r2b]()
+			for _, from := range ids {
+				if from != id {
+					bin.Put(from, bo2[from])
+				}
+			}
+			shard, err := parts[id].Round3(bin.Freeze())
+			if err != nil {
+				sampleError("msg-gennaro-r3", err)
+				return
+			}
+			put(b, "baseshard-k256", fmt.Sprintf("gennaro dkg output of party %d", id), shard,
+				func(x, y *mpc.BaseShard[G, S]) bool { return x.Equal(y) }, shardFacts[G, S](k256.NewCurve()))
+		}
+	})
+}
+
+// ---- 14. optional extras ---------------------------------------------------------------------------------------
+
+func (b *builder) extras() {
+	type G = *k256.Point
+	type S = *k256.Scalar
+	curve := k256.NewCurve()
+	f := k256.NewScalarField()
+	b.group("pedersencom", func() {
+		for i := 0; i < b.reps; i++ {
+			r := b.rng("pedersencom", i)
+			key, err := pedersencom.SampleCommitmentKey(curve, io.Reader(r))
+			if err != nil {
+				sampleError("pedersencom-key-k256", err)
+				continue
+			}
+			put(b, "pedersencom-key-k256", fmt.Sprintf("SampleCommitmentKey#%d", i), key,
+				func(x, y *pedersencom.CommitmentKey[G, S]) bool { return x.Equal(y) }, nil)
+			x, _ := f.Random(r)
+			msg, err := pedersencom.NewMessage(x)
+			if err != nil {
+				sampleError("pedersencom-message-k256", err)
+				continue
+			}
+			com, wit, err := commitments.Commit(key, msg, io.Reader(r))
+			if err != nil {
+				sampleError("pedersencom-commitment-k256", err)
+				continue
+			}
+			put(b, "pedersencom-message-k256", fmt.Sprintf("commit#%d message", i), msg,
+				func(x, y *pedersencom.Message[S]) bool { return x.Equal(y) }, nil)
+			put(b, "pedersencom-commitment-k256", fmt.Sprintf("commit#%d", i), com,
+				func(x, y *pedersencom.Commitment[G, S]) bool { return x.Equal(y) }, nil)
+			put(b, "pedersencom-witness-k256", fmt.Sprintf("commit#%d witness", i), wit,
+				func(x, y *pedersencom.Witness[S]) bool { return x.Equal(y) }, nil)
+			td, err := pedersencom.SampleTrapdoorKey(curve, io.Reader(r))
+			putE(b, "pedersencom-trapdoor-k256", fmt.Sprintf("SampleTrapdoorKey#%d", i), td, err,
+				func(x, y *pedersencom.TrapdoorKey[G, S]) bool { return x.Equal(y) })
+		}
+	})
+	b.group("polynomial-k256", func() {
+		ring, err := polynomials.NewPolynomialRing(f)
+		if err != nil {
+			sampleError("polynomial-k256", err)
+			return
+		}
+		eq := func(x, y *polynomials.Polynomial[S]) bool { return x.Equal(y) }
+		eqM := func(x, y *polynomials.ModuleValuedPolynomial[G, S]) bool { return x.Equal(y) }
+		p, err := ring.New(f.One())
+		putE(b, "polynomial-k256", "constant 1", p, err, eq)
+		p, err = ring.New(f.Zero(), f.One().Neg(), f.FromUint64(256))
+		putE(b, "polynomial-k256", "0 + (q-1)x + 256x^2", p, err, eq)
+		for i := 0; i < 2*b.reps; i++ {
+			r := b.rng("polynomial-k256", i)
+			deg := 1 + r.Intn(4)
+			p, err := ring.RandomPolynomial(deg, io.Reader(r))
+			putE(b, "polynomial-k256", fmt.Sprintf("random#%d degree %d", i, deg), p, err, eq)
+			if err == nil {
+				lp, err := polynomials.LiftPolynomial(p, curve.Generator())
+				putE(b, "mvpolynomial-k256", fmt.Sprintf("LiftPolynomial(random#%d degree %d, G)", i, deg), lp, err, eqM)
+			}
+		}
+	})
+}
+
+// ---- entry point ---------------------------------------------------------------------------------------------------
+
+// buildSamples returns the library values whose wire format is exercised. Everything random is
+// drawn from vh.NewRng(seed, "C12", stream, index); shareholders are always visited in ascending
+// ID order, so the list (and each sample's bytes) is a function of (seed, tier) only.
+func buildSamples(seed int64, tier string) []Sample {
+	b := &builder{seed: seed, reps: 1}
+	if tier == "thorough" {
+		b.reps = 5
+	}
+	kf, kc := k256.NewScalarField(), k256.NewCurve()
+	bf, bg := bls12381.NewScalarField(), bls12381.NewG1()
+
+	b.accessStructures()
+	mspSamples(b, "k256", algebra.PrimeField[*k256.Scalar](kf))
+	mspSamples(b, "bls12381", algebra.PrimeField[*bls12381.Scalar](bf))
+	kwSamples(b, "k256", algebra.PrimeField[*k256.Scalar](kf))
+	kwSamples(b, "bls12381", algebra.PrimeField[*bls12381.Scalar](bf))
+	feldmanSamples(b, "k256", algebra.PrimeGroup[*k256.Point, *k256.Scalar](kc), true)
+	feldmanSamples(b, "bls12381g1", algebra.PrimeGroup[*bls12381.PointG1, *bls12381.Scalar](bg), false)
+	pedersenSamples(b, "k256", algebra.PrimeGroup[*k256.Point, *k256.Scalar](kc))
+	shardSamples(b, "k256", algebra.PrimeGroup[*k256.Point, *k256.Scalar](kc), true)
+	shardSamples(b, "bls12381g1", algebra.PrimeGroup[*bls12381.PointG1, *bls12381.Scalar](bg), false)
+	b.ecdsaSigs()
+	b.matrices()
+	b.numbers()
+	b.curveElements()
+	b.hashcoms()
+	b.schnorrProofs()
+	b.gennaroMessages()
+	b.extras()
+	return b.out
+}
